@@ -96,7 +96,7 @@ Lemma read_string_f_raw (bs : list byte) : forall fuel acc r (p : byte) (rst : l
                 rd_ok r' /\ cur r' = Some p' /\ view r' = p' :: rst.
 Proof.
   induction bs as [|b bs IH]; intros fuel acc r p rst Hbs Hok Hc Hv Hf.
-  - cbn [length]. rewrite Nat.sub_0_r, app_nil_r. cbn [app] in Hv. eauto.
+  - cbn [length]. rewrite Nat.sub_0_r, app_nil_r. cbn [app] in Hv. exists r, p. auto.
   - destruct fuel as [|f]; [cbn in Hf; lia|]. inversion Hbs as [|? ? Hb Hbs']; subst.
     cbn [app] in Hv. cbn [read_string_f].
     destruct (next_drop r p _ Hok Hc Hv) as (r1 & Hn1 & Hv1 & Hok1 & Hc1). rewrite Hn1.
@@ -104,7 +104,7 @@ Proof.
     rewrite (eqb_false b 34), (eqb_false b 92) by lia.
     destruct (IH f (acc ++ [b]) r1 b rst Hbs' Hok1 Hc1 Hv1) as (r2 & p2 & E & ? & ? & ?);
       [cbn in Hf; lia|].
-    nb. rewrite E. rewrite <- app_assoc. cbn [app length Nat.sub]. eauto.
+    nb. rewrite E. rewrite <- app_assoc. cbn [app length Nat.sub]. exists r2, p2. auto.
 Qed.
 
 Lemma str_val_cons c cs : str_val (c :: cs) = char_val c :: str_val cs.
@@ -173,8 +173,6 @@ Proof.
       rewrite E4. rewrite <- app_assoc. eauto.
 Qed.
 
-Lemma render_char_nonempty : True. Proof. exact I. Qed.
-
 Lemma read_string_spec cs r (tl : list byte) :
   rd_ok r -> cur r = Some 34 -> Forall schar_ok cs -> view r = render_str cs ++ tl ->
   exists r', read_string r = (POk (JStr (str_val cs)), r') /\ view r' = tl /\ rd_ok r'.
@@ -200,3 +198,788 @@ Proof.
   - cbn [app] in Hv. destruct (next_drop r c0 _ Hok Hc Hv) as (r' & Hn & Hv' & Hok' & Hc').
     rewrite Hn. cbn [hd_error] in Hc' |- *. rewrite N.eqb_refl. eapply IH; eauto.
 Qed.
+
+(* ================= numbers ================= *)
+(* read_number cut into its phases (definitionally the same function) *)
+Definition rn_exp (neg dbl1 : bool) (chars : list byte) (r : reader) : pres * reader :=
+    let '(c, r) := peek r in
+    let '(dbl2, chars, r) :=
+        match c with
+        | Some b =>
+            if is_exp_marker b then
+              let chars := chars ++ [69] in
+              let r := snd (next r) in
+              let '(c2, r) := peek r in
+              let '(chars, r) := if is_b c2 45 then (chars ++ [45], snd (next r))
+                                 else if is_b c2 43 then (chars, snd (next r))
+                                 else (chars, r) in
+              let '(chars, r) := read_digits chars r in (true, chars, r)
+            else (false, chars, r)
+        | None => (false, chars, r)
+        end in
+    (classify_number neg (dbl1 || dbl2) chars, r).
+
+Definition rn_frac (neg : bool) (chars : list byte) (r : reader) : pres * reader :=
+    let '(c, r) := peek r in
+    let '(dbl1, chars, r) :=
+        if is_b c 46
+        then let '(chars, r) := read_digits (chars ++ [46]) (snd (next r)) in (true, chars, r)
+        else (false, chars, r) in
+    rn_exp neg dbl1 chars r.
+
+Definition rn_tail (neg : bool) (chars : list byte) (r : reader) : pres * reader :=
+  let '(chars, r) := read_digits chars r in rn_frac neg chars r.
+
+Lemma read_number_unf r : read_number r =
+  let '(c, r) := peek r in
+  let neg := is_b c 45 in
+  let '(after_minus, r) := if neg then next r else (c, r) in
+  match (if neg then after_minus else Some 0) with
+  | None => (PErr, r)
+  | Some _ => rn_tail neg (if neg then [45] else []) r
+  end.
+Proof. reflexivity. Qed.
+
+Definition is_some {A} (o : option A) : bool := match o with Some _ => true | None => false end.
+
+Definition frac_bytes (fr : option (list byte)) : list byte :=
+  match fr with Some f => 46 :: f | None => [] end.
+Definition exp_bytes (e : option (bool * option bool * list byte)) : list byte :=
+  match e with
+  | Some (up, sg, e) => (if up then 69 else 101) ::
+                        match sg with Some true => [45] | Some false => [43] | None => [] end ++ e
+  | None => []
+  end.
+Definition exp_text (e : option (bool * option bool * list byte)) : list byte :=
+  match e with
+  | Some (_, sg, e) => 69 :: match sg with Some true => [45] | _ => [] end ++ e
+  | None => []
+  end.
+
+Lemma render_num_eq n : render_num n =
+  (if sn_neg n then [45] else []) ++ sn_int n ++ frac_bytes (sn_frac n) ++ exp_bytes (sn_exp n).
+Proof. reflexivity. Qed.
+Lemma num_text_eq n : num_text n =
+  (if sn_neg n then [45] else []) ++ sn_int n ++ frac_bytes (sn_frac n) ++ exp_text (sn_exp n).
+Proof. reflexivity. Qed.
+
+(* what may follow a number *)
+Definition num_follow (tl : list byte) : Prop :=
+  match tl with
+  | b :: _ => is_digit b = false /\ b <> 46 /\ is_exp_marker b = false
+  | [] => True
+  end.
+
+Lemma num_follow_ndigit tl : num_follow tl -> ndigit tl.
+Proof. destruct tl; cbn; tauto. Qed.
+
+Lemma digit_neq b k : is_digit b = true -> (k < 48 \/ 57 < k) -> (b =? k) = false.
+Proof. intros H Hk. apply digit_range in H. apply N.eqb_neq. lia. Qed.
+
+Lemma digits_hd (ds : list byte) : digits_ok ds ->
+  exists d ds', ds = d :: ds' /\ is_digit d = true /\ Forall (fun b => is_digit b = true) ds'.
+Proof.
+  intros [Hne Hall]. destruct ds as [|d ds']; [congruence|]. inversion Hall; subst. eauto.
+Qed.
+
+Lemma rn_exp_spec neg dbl1 (chars : list byte) r e (tl : list byte) :
+  rd_ok r -> match e with Some (_, _, ds) => digits_ok ds | None => True end ->
+  num_follow tl -> view r = exp_bytes e ++ tl ->
+  exists r', rn_exp neg dbl1 chars r =
+             (classify_number neg (dbl1 || is_some e) (chars ++ exp_text e), r') /\
+             view r' = tl /\ rd_ok r'.
+Proof.
+  intros Hok He Htl Hv. unfold rn_exp.
+  destruct e as [[[up sg] ds]|]; cbn [exp_bytes exp_text is_some] in *.
+  - set (m := if up then 69 else 101) in *.
+    assert (Hm : is_exp_marker m = true) by (destruct up; reflexivity).
+    cbn [app] in Hv. rewrite <- app_assoc in Hv.
+    destruct (peek_cons r m _ Hok Hv) as (r1 & -> & Hv1 & Hc1 & Hok1). cbv beta iota zeta.
+    rewrite Hm.
+    destruct (next_drop r1 m _ Hok1 Hc1 Hv1) as (r2 & -> & Hv2 & Hok2 & _). cbn [snd].
+    destruct He as [Hne Hds]. pose proof (num_follow_ndigit tl Htl) as Hnd.
+    destruct sg as [[|]|].
+    + cbn [app] in Hv2.
+      destruct (peek_cons r2 45 _ Hok2 Hv2) as (r3 & -> & Hv3 & Hc3 & Hok3). cbn [is_b].
+      rewrite N.eqb_refl.
+      destruct (next_drop r3 45 _ Hok3 Hc3 Hv3) as (r4 & -> & Hv4 & Hok4 & _). cbn [snd].
+      destruct (read_digits_spec ds ((chars ++ [69]) ++ [45]) r4 tl Hok4 Hds Hnd Hv4) as (r5 & E & ? & ?).
+      nb. rewrite E. rewrite <- !app_assoc. cbn [app]. eauto.
+    + cbn [app] in Hv2.
+      destruct (peek_cons r2 43 _ Hok2 Hv2) as (r3 & -> & Hv3 & Hc3 & Hok3). cbn [is_b].
+      ground_eqb. cbv iota.
+      destruct (next_drop r3 43 _ Hok3 Hc3 Hv3) as (r4 & -> & Hv4 & Hok4 & _). cbn [snd].
+      destruct (read_digits_spec ds (chars ++ [69]) r4 tl Hok4 Hds Hnd Hv4) as (r5 & E & ? & ?).
+      nb. rewrite E. rewrite <- !app_assoc. cbn [app]. eauto.
+    + cbn [app] in Hv2. destruct ds as [|d ds']; [congruence|]. cbn [app] in Hv2.
+      destruct (peek_cons r2 d _ Hok2 Hv2) as (r3 & -> & Hv3 & Hc3 & Hok3). cbn [is_b].
+      assert (Hd : is_digit d = true) by (inversion Hds; assumption).
+      rewrite (digit_neq d 45), (digit_neq d 43) by (auto; lia).
+      destruct (read_digits_spec (d :: ds') (chars ++ [69]) r3 tl Hok3 Hds Hnd Hv3) as (r5 & E & ? & ?).
+      nb. rewrite E. rewrite <- !app_assoc. cbn [app]. eauto.
+  - cbn [app] in Hv. rewrite app_nil_r, orb_false_r. destruct tl as [|b tl].
+    + destruct (peek_nil r Hok Hv) as (r1 & -> & ? & ?). cbv beta iota zeta.
+      rewrite orb_false_r. eauto.
+    + destruct (peek_cons r b _ Hok Hv) as (r1 & -> & ? & ? & ?). cbv beta iota zeta.
+      destruct Htl as (_ & _ & ->). rewrite orb_false_r. eauto.
+Qed.
+
+Lemma exp_follow e (tl : list byte) : num_follow tl ->
+  ndigit (exp_bytes e ++ tl) /\ is_b (hd_error (exp_bytes e ++ tl)) 46 = false.
+Proof.
+  intros Htl. destruct e as [[[[|] sg] ds]|]; cbn [exp_bytes app hd_error ndigit is_b]; auto.
+  destruct tl as [|b tl]; cbn [hd_error ndigit is_b]; auto.
+  destruct Htl as (? & ? & ?). split; [assumption|apply N.eqb_neq; assumption].
+Qed.
+
+Lemma rn_frac_spec neg (chars : list byte) r fr e (tl : list byte) :
+  rd_ok r -> match fr with Some f => digits_ok f | None => True end ->
+  match e with Some (_, _, ds) => digits_ok ds | None => True end ->
+  num_follow tl -> view r = frac_bytes fr ++ exp_bytes e ++ tl ->
+  exists r', rn_frac neg chars r =
+             (classify_number neg (is_some fr || is_some e) (chars ++ frac_bytes fr ++ exp_text e), r') /\
+             view r' = tl /\ rd_ok r'.
+Proof.
+  intros Hok Hfr He Htl Hv. unfold rn_frac. destruct (exp_follow e tl Htl) as [Hnd H46].
+  destruct fr as [f|]; cbn [frac_bytes is_some] in *.
+  - cbn [app] in Hv.
+    destruct (peek_cons r 46 _ Hok Hv) as (r1 & -> & Hv1 & Hc1 & Hok1). cbn [is_b].
+    rewrite N.eqb_refl.
+    destruct (next_drop r1 46 _ Hok1 Hc1 Hv1) as (r2 & -> & Hv2 & Hok2 & _). cbn [snd].
+    destruct Hfr as [_ Hf].
+    destruct (read_digits_spec f (chars ++ [46]) r2 _ Hok2 Hf Hnd Hv2) as (r3 & E & Hv3 & Hok3).
+    nb. rewrite E.
+    destruct (rn_exp_spec neg true ((chars ++ [46]) ++ f) r3 e tl Hok3 He Htl Hv3) as (r4 & E4 & ? & ?).
+    nb. rewrite E4. rewrite <- !app_assoc. cbn [app orb]. eauto.
+  - cbn [app] in Hv. destruct (peek_spec r Hok) as (r1 & -> & Hv1 & Hok1 & _).
+    rewrite Hv in *. rewrite H46.
+    destruct (rn_exp_spec neg false chars r1 e tl Hok1 He Htl Hv1) as (r4 & E4 & ? & ?).
+    rewrite E4. cbn [app orb]. eauto.
+Qed.
+
+Lemma frac_follow fr e (tl : list byte) : num_follow tl -> ndigit (frac_bytes fr ++ exp_bytes e ++ tl).
+Proof.
+  intros Htl. destruct fr as [f|]; cbn [frac_bytes app ndigit]; [reflexivity|].
+  apply exp_follow. assumption.
+Qed.
+
+Lemma rn_tail_spec neg (chars : list byte) r (int : list byte) fr e (tl : list byte) :
+  rd_ok r -> Forall (fun b => is_digit b = true) int ->
+  match fr with Some f => digits_ok f | None => True end ->
+  match e with Some (_, _, ds) => digits_ok ds | None => True end ->
+  num_follow tl -> view r = int ++ frac_bytes fr ++ exp_bytes e ++ tl ->
+  exists r', rn_tail neg chars r =
+             (classify_number neg (is_some fr || is_some e)
+                (chars ++ int ++ frac_bytes fr ++ exp_text e), r') /\
+             view r' = tl /\ rd_ok r'.
+Proof.
+  intros Hok Hint Hfr He Htl Hv. unfold rn_tail.
+  destruct (read_digits_spec int chars r _ Hok Hint (frac_follow fr e tl Htl) Hv) as (r1 & E & Hv1 & Hok1).
+  rewrite E.
+  destruct (rn_frac_spec neg (chars ++ int) r1 fr e tl Hok1 Hfr He Htl Hv1) as (r2 & E2 & ? & ?).
+  rewrite E2. rewrite <- !app_assoc. eauto.
+Qed.
+
+Lemma read_number_spec n r (tl : list byte) :
+  snum_ok n -> num_follow tl -> rd_ok r -> view r = render_num n ++ tl ->
+  exists r', read_number r =
+             (classify_number (sn_neg n) (is_some (sn_frac n) || is_some (sn_exp n)) (num_text n), r') /\
+             view r' = tl /\ rd_ok r'.
+Proof.
+  intros (Hint & Hfr & He) Htl Hok Hv. rewrite render_num_eq in Hv. rewrite num_text_eq.
+  destruct n as [neg int fr e]; cbn [sn_neg sn_int sn_frac sn_exp] in *.
+  destruct Hint as [Hint _]. destruct (digits_hd int Hint) as (d & int' & -> & Hd & Hint').
+  assert (Hall : Forall (fun b => is_digit b = true) (d :: int')) by (constructor; assumption).
+  rewrite <- !app_assoc in Hv. rewrite read_number_unf. destruct neg.
+  - cbn [app] in Hv.
+    destruct (peek_cons r 45 _ Hok Hv) as (r1 & -> & Hv1 & Hc1 & Hok1). cbn [is_b].
+    rewrite N.eqb_refl. cbv beta iota zeta.
+    destruct (next_drop r1 45 _ Hok1 Hc1 Hv1) as (r2 & -> & Hv2 & Hok2 & _). cbn [hd_error].
+    destruct (rn_tail_spec true [45] r2 (d :: int') fr e tl Hok2 Hall Hfr He Htl Hv2) as (r3 & E & ? & ?).
+    rewrite E. eauto.
+  - cbn [app] in Hv.
+    destruct (peek_cons r d _ Hok Hv) as (r1 & -> & Hv1 & Hc1 & Hok1). cbn [is_b].
+    rewrite (digit_neq d 45) by (auto; lia). cbv beta iota zeta.
+    destruct (rn_tail_spec false [] r1 (d :: int') fr e tl Hok1 Hall Hfr He Htl Hv1) as (r3 & E & ? & ?).
+    rewrite E. eauto.
+Qed.
+
+Lemma parse_to_double_eq txt : parse_to_double txt =
+  match (match dec2flt txt with
+         | Some f => if f_is_finite f then Some (num_of_f f) else None
+         | None => None end) with
+  | Some x => POk (JNum x) | None => PErr end.
+Proof.
+  unfold parse_to_double. destruct (dec2flt txt) as [f|]; [|reflexivity].
+  destruct (f_is_finite f); reflexivity.
+Qed.
+
+Lemma classify_num_val n x : snum_ok n -> num_val n = Some x ->
+  classify_number (sn_neg n) (is_some (sn_frac n) || is_some (sn_exp n)) (num_text n) = POk (JNum x).
+Proof.
+  intros (Hint & _ & _). unfold num_val, classify_number.
+  pose proof (parse_to_double_eq (num_text n)) as P. revert P.
+  generalize (match dec2flt (num_text n) with
+              | Some f => if f_is_finite f then Some (num_of_f f) else None
+              | None => None end) as dbl.
+  intros dbl P. cbv zeta.
+  destruct (sn_frac n) as [f|] eqn:Ef; [cbn [is_some orb]; intros ->; exact P|].
+  destruct (sn_exp n) as [ex|] eqn:Ee; [cbn [is_some orb]; intros ->; exact P|].
+  cbn [is_some orb]. revert P. rewrite num_text_eq, Ef, Ee. cbn [frac_bytes exp_text]. rewrite !app_nil_r.
+  destruct Hint as [[Hne _] _]. destruct (sn_int n) as [|d ds]; [congruence|].
+  destruct (sn_neg n); cbn [app]; intros P.
+  - unfold i64_min.
+    destruct (Z.leb_spec (Z.of_N (N_of_digits (d :: ds))) 9223372036854775808) as [H|H];
+    destruct (Z.leb_spec (-9223372036854775808) (- Z.of_N (N_of_digits (d :: ds)))) as [H'|H'];
+      try lia.
+    + intros E; injection E as <-. reflexivity.
+    + intros ->. exact P.
+  - unfold u64_max. destruct (N_of_digits (d :: ds) <=? 18446744073709551615).
+    + intros E; injection E as <-. reflexivity.
+    + intros ->. exact P.
+Qed.
+
+(* ================= values: named versions of the nested fixpoints of the specification ================= *)
+Definition item := (ws * sjson * ws)%type.
+Definition member := (ws * list schar * ws * (ws * sjson * ws))%type.
+
+Fixpoint render_items (items : list item) : list byte :=
+  match items with
+  | [] => [93]
+  | (wb, t, wa) :: more =>
+      wb ++ render t ++ wa ++ match more with [] => [] | _ => [44] end ++ render_items more
+  end.
+Fixpoint render_members (ms : list member) : list byte :=
+  match ms with
+  | [] => [125]
+  | (wk, k, wc, (wb, t, wa)) :: more =>
+      wk ++ render_str k ++ wc ++ [58] ++ wb ++ render t ++ wa
+      ++ match more with [] => [] | _ => [44] end ++ render_members more
+  end.
+Fixpoint vals_items (items : list item) : option (list json) :=
+  match items with
+  | [] => Some []
+  | (_, t, _) :: more =>
+      match value_of t, vals_items more with Some v, Some vs => Some (v :: vs) | _, _ => None end
+  end.
+Fixpoint vals_members (ms : list member) : option (list (str * json)) :=
+  match ms with
+  | [] => Some []
+  | (_, k, _, (_, t, _)) :: more =>
+      match value_of t, vals_members more with
+      | Some v, Some vs => Some ((str_val k, v) :: vs) | _, _ => None end
+  end.
+Fixpoint wf_items (items : list item) : Prop :=
+  match items with
+  | [] => True
+  | (wb, t, wa) :: more => ws_ok wb /\ wf t /\ ws_ok wa /\ wf_items more
+  end.
+Fixpoint wf_members (ms : list member) : Prop :=
+  match ms with
+  | [] => True
+  | (wk, k, wc, (wb, t, wa)) :: more =>
+      ws_ok wk /\ Forall schar_ok k /\ ws_ok wc /\ ws_ok wb /\ wf t /\ ws_ok wa /\ wf_members more
+  end.
+Definition key_of (m : member) : str := str_val (snd (fst (fst m))).
+
+Lemma render_arr items : render (SArr items) = 91 :: render_items items.
+Proof. reflexivity. Qed.
+Lemma render_obj ms : render (SObj ms) = 123 :: render_members ms.
+Proof. reflexivity. Qed.
+Lemma value_arr items : value_of (SArr items) = option_map JArr (vals_items items).
+Proof. reflexivity. Qed.
+Lemma value_obj ms : value_of (SObj ms) = option_map JObj (vals_members ms).
+Proof. reflexivity. Qed.
+Lemma wf_arr items : wf (SArr items) = (items <> [] /\ wf_items items).
+Proof. reflexivity. Qed.
+Lemma wf_obj ms : wf (SObj ms) = (ms <> [] /\ NoDup (map key_of ms) /\ wf_members ms).
+Proof. reflexivity. Qed.
+
+Definition sep_of {A} (more : list A) : list byte := match more with [] => [] | _ => [44] end.
+
+Lemma render_items_cons wb t wa more :
+  render_items ((wb, t, wa) :: more) =
+  wb ++ render t ++ wa ++ sep_of more ++ render_items more.
+Proof. reflexivity. Qed.
+Lemma render_members_cons wk k wc wb t wa more :
+  render_members ((wk, k, wc, (wb, t, wa)) :: more) =
+  wk ++ render_str k ++ wc ++ [58] ++ wb ++ render t ++ wa
+  ++ sep_of more ++ render_members more.
+Proof. reflexivity. Qed.
+
+(* ================= unfolding equations of the parser ================= *)
+Lemma parse_value_S f r : parse_value (S f) r =
+    let r := eat_whitespace r in
+    match peek r with
+    | (None, r) => (PEof, r)
+    | (Some b, r) =>
+      if b =? 116 then let '(ok, r) := read_word [114; 117; 101] r in ((if ok then POk (JBool true) else PErr), r)
+      else if b =? 102 then let '(ok, r) := read_word [97; 108; 115; 101] r in ((if ok then POk (JBool false) else PErr), r)
+      else if b =? 110 then let '(ok, r) := read_word [117; 108; 108] r in ((if ok then POk JNull else PErr), r)
+      else if b =? 34 then read_string r
+      else if (b =? 45) || is_digit b then read_number r
+      else if b =? 91 then
+        let r := eat_whitespace (snd (next r)) in
+        let '(c, r) := peek r in
+        if is_b c 93 then (POk (JArr []), snd (next r)) else parse_items f [] r
+      else if b =? 123 then
+        let r := eat_whitespace (snd (next r)) in
+        let '(c, r) := peek r in
+        if is_b c 125 then (POk (JObj []), snd (next r)) else parse_members f [] r
+      else (PErr, snd (next r))
+    end.
+Proof. reflexivity. Qed.
+
+Lemma parse_items_S f acc r : parse_items (S f) acc r =
+    match parse_value f r with
+    | (POk v, r) =>
+        let r := eat_whitespace r in
+        match peek r with
+        | (Some c, r) =>
+            if c =? 93 then (POk (JArr (acc ++ [v])), snd (next r))
+            else if c =? 44 then parse_items f (acc ++ [v]) (snd (next r))
+            else (PErr, r)
+        | (None, r) => (PErr, r)
+        end
+    | (PEof, r) => (PErr, r)
+    | (e, r) => (e, r)
+    end.
+Proof. reflexivity. Qed.
+
+Lemma parse_members_S f acc r : parse_members (S f) acc r =
+    match parse_value f r with
+    | (POk (JStr k), r) =>
+        let r := eat_whitespace r in
+        let '(c, r) := peek r in
+        if negb (is_b c 58) then (PErr, r) else
+            match parse_value f (snd (next r)) with
+            | (POk v, r) =>
+                let acc := obj_insert k v acc in
+                let r := eat_whitespace r in
+                match peek r with
+                | (Some c, r) =>
+                    if c =? 125 then (POk (JObj acc), snd (next r))
+                    else if c =? 44 then parse_members f acc (snd (next r))
+                    else (PErr, r)
+                | (None, r) => (PErr, r)
+                end
+            | (PEof, r) => (PErr, r)
+            | (e, r) => (e, r)
+            end
+    | (POk _, r) => (PErr, r)
+    | (PEof, r) => (PErr, r)
+    | (e, r) => (e, r)
+    end.
+Proof. reflexivity. Qed.
+
+(* ================= first bytes, followers ================= *)
+Definition follow (t : sjson) (tl : list byte) : Prop :=
+  match t with SNum _ => num_follow tl | _ => True end.
+
+Lemma num_follow_ws b l : is_ws b = true -> num_follow (b :: l).
+Proof.
+  intros H. apply ws_cases in H. destruct H as [ -> | [ -> | [ -> | -> ] ] ]; cbn; repeat split; discriminate.
+Qed.
+
+Lemma follow_after t (wa rst : list byte) : ws_ok wa -> num_follow rst -> follow t (wa ++ rst).
+Proof.
+  intros Hwa Hr. destruct t; cbn [follow]; auto.
+  destruct wa as [|a wa]; [exact Hr|]. inversion Hwa; subst. cbn [app]. apply num_follow_ws. assumption.
+Qed.
+
+Ltac ground_dig :=
+  repeat match goal with
+  | |- context [is_digit ?a] =>
+      let v := eval vm_compute in (is_digit a) in
+      match v with
+      | true => change (is_digit a) with true
+      | false => change (is_digit a) with false
+      end
+  end.
+
+Definition num_start (b : byte) : Prop := b = 45 \/ is_digit b = true.
+
+Lemma num_start_facts b : num_start b ->
+  (b =? 116) = false /\ (b =? 102) = false /\ (b =? 110) = false /\ (b =? 34) = false /\
+  ((b =? 45) || is_digit b) = true /\ is_ws b = false /\ (b =? 93) = false.
+Proof.
+  intros [->|H]; [repeat split; reflexivity|].
+  rewrite H, orb_true_r. pose proof (digit_not_ws b H). apply digit_range in H.
+  repeat split; auto; apply N.eqb_neq; lia.
+Qed.
+
+Lemma num_head n : snum_ok n -> exists b l, render_num n = b :: l /\ num_start b.
+Proof.
+  intros ((Hint & _) & _ & _). rewrite render_num_eq.
+  destruct (digits_hd _ Hint) as (d & ds & -> & Hd & _).
+  destruct (sn_neg n); cbn [app]; eexists _, _; (split; [reflexivity|]); [left|right]; auto.
+Qed.
+
+Lemma render_head t : wf t ->
+  exists b l, render t = b :: l /\ is_ws b = false /\ (b =? 93) = false.
+Proof.
+  destruct t as [| | |n|cs|w|items|w|ms]; intros H;
+    try (eexists _, _; split; [reflexivity|split; reflexivity]).
+  destruct H as [H _]. destruct (num_head n H) as (b & l & E & Hs).
+  apply num_start_facts in Hs. cbn [render]. rewrite E. eexists _, _; split; [reflexivity|tauto].
+Qed.
+
+Lemma render_nonempty t : wf t -> (1 <= length (render t))%nat.
+Proof. intros H. destruct (render_head t H) as (b & l & -> & _). cbn [length]. lia. Qed.
+
+(* ================= objects ================= *)
+Lemma obj_insert_fresh k v acc : ~ In k (map fst acc) -> obj_insert k v acc = acc ++ [(k, v)].
+Proof.
+  induction acc as [|[k' v'] acc IH]; intros H; [reflexivity|].
+  cbn [obj_insert app]. cbn [map fst In] in H.
+  rewrite str_eqb_neq by (intros ->; apply H; left; reflexivity).
+  rewrite IH by tauto. reflexivity.
+Qed.
+
+Ltac lens := repeat first [rewrite app_length | progress cbn [length]]; unfold item, member, ws, byte.
+
+(* ================= the main lemma, by induction on fuel ================= *)
+Definition P_value (fuel : nat) : Prop :=
+  forall t v r (w tl : list byte), wf t -> value_of t = Some v -> ws_ok w -> rd_ok r ->
+    view r = w ++ render t ++ tl -> follow t tl -> (2 * length (view r) < fuel)%nat ->
+    exists r', parse_value fuel r = (POk v, r') /\ view r' = tl /\ rd_ok r'.
+Definition P_items (fuel : nat) : Prop :=
+  forall items vs acc r (tl : list byte), items <> [] -> wf_items items ->
+    vals_items items = Some vs -> rd_ok r ->
+    view r = render_items items ++ tl -> (2 * length (view r) + 1 < fuel)%nat ->
+    exists r', parse_items fuel acc r = (POk (JArr (acc ++ vs)), r') /\ view r' = tl /\ rd_ok r'.
+Definition P_members (fuel : nat) : Prop :=
+  forall ms kvs acc r (tl : list byte), ms <> [] -> wf_members ms -> NoDup (map key_of ms) ->
+    (forall k, In k (map key_of ms) -> ~ In k (map fst acc)) ->
+    vals_members ms = Some kvs -> rd_ok r ->
+    view r = render_members ms ++ tl -> (2 * length (view r) + 1 < fuel)%nat ->
+    exists r', parse_members fuel acc r = (POk (JObj (acc ++ kvs)), r') /\ view r' = tl /\ rd_ok r'.
+
+Lemma sep_items_follow (more : list item) (tl : list byte) :
+  let x := sep_of more ++ render_items more ++ tl in
+  nws x /\ num_follow x.
+Proof. destruct more; cbn; repeat split; discriminate. Qed.
+
+Lemma sep_members_follow (more : list member) (tl : list byte) :
+  let x := sep_of more ++ render_members more ++ tl in
+  nws x /\ num_follow x.
+Proof. destruct more; cbn; repeat split; discriminate. Qed.
+
+Lemma value_step f : P_items f -> P_members f -> P_value (S f).
+Proof.
+  intros IHi IHm t v r w tl Hwf Hval Hw Hok Hv Hfol Hlen. rewrite parse_value_S. cbv zeta.
+  destruct (render_head t Hwf) as (b0 & l0 & Hr0 & Hb0ws & Hb093).
+  destruct (eat_whitespace_spec w r (render t ++ tl) Hok Hw) as (Hv1 & Hok1);
+    [rewrite Hr0; exact Hb0ws | exact Hv |].
+  set (r1 := eat_whitespace r) in *.
+  assert (Hlen1 : (length (view r1) <= length (view r))%nat) by (rewrite Hv1, Hv; lens; lia).
+  clearbody r1. clear Hr0 Hb0ws Hb093 b0 l0.
+  destruct t as [| | |n|cs|w0|items|w0|ms].
+  - (* null *)
+    cbn [value_of] in Hval. injection Hval as <-.
+    change (render SNull ++ tl) with (110 :: [117; 108; 108] ++ tl) in Hv1.
+    destruct (peek_cons r1 110 _ Hok1 Hv1) as (r2 & -> & Hv2 & Hc2 & Hok2).
+    ground_eqb. cbv iota.
+    destruct (read_word_spec [117; 108; 108] r2 110 tl Hok2 Hc2 Hv2) as (r3 & -> & ? & ?). eauto.
+  - (* true *)
+    cbn [value_of] in Hval. injection Hval as <-.
+    change (render STrue ++ tl) with (116 :: [114; 117; 101] ++ tl) in Hv1.
+    destruct (peek_cons r1 116 _ Hok1 Hv1) as (r2 & -> & Hv2 & Hc2 & Hok2).
+    ground_eqb. cbv iota.
+    destruct (read_word_spec [114; 117; 101] r2 116 tl Hok2 Hc2 Hv2) as (r3 & -> & ? & ?). eauto.
+  - (* false *)
+    cbn [value_of] in Hval. injection Hval as <-.
+    change (render SFalse ++ tl) with (102 :: [97; 108; 115; 101] ++ tl) in Hv1.
+    destruct (peek_cons r1 102 _ Hok1 Hv1) as (r2 & -> & Hv2 & Hc2 & Hok2).
+    ground_eqb. cbv iota.
+    destruct (read_word_spec [97; 108; 115; 101] r2 102 tl Hok2 Hc2 Hv2) as (r3 & -> & ? & ?). eauto.
+  - (* number *)
+    cbn [wf] in Hwf. destruct Hwf as [Hn Hnv]. cbn [value_of] in Hval.
+    destruct (num_val n) as [x|] eqn:Ex; [|congruence]. cbn [option_map] in Hval. injection Hval as <-.
+    destruct (num_head n Hn) as (b & l & Hr & Hs).
+    destruct (num_start_facts b Hs) as (E1 & E2 & E3 & E4 & E5 & _).
+    cbn [render] in Hv1.
+    assert (Hv1' : view r1 = b :: l ++ tl) by (rewrite Hv1, Hr; reflexivity).
+    destruct (peek_cons r1 b _ Hok1 Hv1') as (r2 & -> & Hv2 & Hc2 & Hok2).
+    rewrite E1, E2, E3, E4, E5.
+    destruct (read_number_spec n r2 tl Hn Hfol Hok2) as (r3 & -> & ? & ?);
+      [rewrite Hv2, Hr; reflexivity|].
+    rewrite (classify_num_val n x Hn Ex). eauto.
+  - (* string *)
+    cbn [value_of] in Hval. injection Hval as <-. cbn [wf] in Hwf. cbn [render] in Hv1.
+    assert (Hv1' : view r1 = 34 :: (flat_map render_char cs ++ [34]) ++ tl) by (rewrite Hv1; reflexivity).
+    destruct (peek_cons r1 34 _ Hok1 Hv1') as (r2 & -> & Hv2 & Hc2 & Hok2).
+    ground_eqb. cbv iota.
+    destruct (read_string_spec cs r2 tl Hok2 Hc2 Hwf) as (r3 & -> & ? & ?);
+      [rewrite Hv2; reflexivity|]. eauto.
+  - (* empty array *)
+    cbn [value_of] in Hval. injection Hval as <-. cbn [wf] in Hwf. cbn [render] in Hv1.
+    assert (Hv1' : view r1 = 91 :: w0 ++ 93 :: tl).
+    { rewrite Hv1. cbn [app]. rewrite <- app_assoc. reflexivity. }
+    destruct (peek_cons r1 91 _ Hok1 Hv1') as (r2 & -> & Hv2 & Hc2 & Hok2).
+    ground_eqb. ground_dig. cbn [orb]. cbv iota.
+    destruct (next_drop r2 91 _ Hok2 Hc2 Hv2) as (r3 & -> & Hv3 & Hok3 & _). cbn [snd].
+    destruct (eat_whitespace_spec w0 r3 (93 :: tl) Hok3 Hwf) as (Hv4 & Hok4);
+      [reflexivity | exact Hv3 |].
+    set (r4 := eat_whitespace r3) in *. clearbody r4.
+    destruct (peek_cons r4 93 _ Hok4 Hv4) as (r5 & -> & Hv5 & Hc5 & Hok5).
+    cbn [is_b]. rewrite N.eqb_refl.
+    destruct (next_drop r5 93 _ Hok5 Hc5 Hv5) as (r6 & -> & ? & ? & _). cbn [snd]. eauto.
+  - (* non-empty array *)
+    rewrite render_arr in Hv1. cbn [app] in Hv1.
+    rewrite wf_arr in Hwf. destruct Hwf as [Hne Hwfi].
+    rewrite value_arr in Hval. destruct (vals_items items) as [vs|] eqn:Evs; [|discriminate].
+    cbn [option_map] in Hval. injection Hval as <-.
+    destruct (peek_cons r1 91 _ Hok1 Hv1) as (r2 & -> & Hv2 & Hc2 & Hok2).
+    ground_eqb. ground_dig. cbn [orb]. cbv iota.
+    destruct (next_drop r2 91 _ Hok2 Hc2 Hv2) as (r3 & -> & Hv3 & Hok3 & _). cbn [snd].
+    assert (L3 : S (length (view r3)) = length (view r1)) by (rewrite Hv1, Hv3; reflexivity).
+    destruct items as [|[[wb t1] wa] more]; [congruence|].
+    cbn [wf_items] in Hwfi. destruct Hwfi as (Hwb & Hwft1 & Hwa & Hmore).
+    rewrite render_items_cons in Hv3. rewrite <- !app_assoc in Hv3.
+    destruct (render_head t1 Hwft1) as (b1 & l1 & Hr1 & Hb1ws & Hb193).
+    destruct (eat_whitespace_spec wb r3
+                (render t1 ++ wa ++ sep_of more ++ render_items more ++ tl)
+                Hok3 Hwb) as (Hv4 & Hok4);
+      [rewrite Hr1; exact Hb1ws | exact Hv3 |].
+    set (r4 := eat_whitespace r3) in *.
+    assert (L4 : (length (view r4) <= length (view r3))%nat)  by (rewrite Hv4, Hv3; lens; lia).
+    clearbody r4.
+    assert (Hv4' : view r4 = b1 :: l1 ++ wa ++ sep_of more ++ render_items more ++ tl).
+    { rewrite Hv4, Hr1. reflexivity. }
+    destruct (peek_cons r4 b1 _ Hok4 Hv4') as (r5 & -> & Hv5 & Hc5 & Hok5).
+    cbn [is_b]. rewrite Hb193.
+    destruct (IHi (([], t1, wa) :: more) vs [] r5 tl) as (r6 & -> & ? & ?); try discriminate.
+    + cbn [wf_items]. splits; auto. constructor.
+    + exact Evs.
+    + exact Hok5.
+    + rewrite Hv5, render_items_cons, Hr1, <- !app_assoc. reflexivity.
+    + assert (L5 : length (view r5) = length (view r4)) by (rewrite Hv5, Hv4'; reflexivity). lia.
+    + cbn [app]. eauto.
+  - (* empty object *)
+    cbn [value_of] in Hval. injection Hval as <-. cbn [wf] in Hwf. cbn [render] in Hv1.
+    assert (Hv1' : view r1 = 123 :: w0 ++ 125 :: tl).
+    { rewrite Hv1. cbn [app]. rewrite <- app_assoc. reflexivity. }
+    destruct (peek_cons r1 123 _ Hok1 Hv1') as (r2 & -> & Hv2 & Hc2 & Hok2).
+    ground_eqb. ground_dig. cbn [orb]. cbv iota.
+    destruct (next_drop r2 123 _ Hok2 Hc2 Hv2) as (r3 & -> & Hv3 & Hok3 & _). cbn [snd].
+    destruct (eat_whitespace_spec w0 r3 (125 :: tl) Hok3 Hwf) as (Hv4 & Hok4);
+      [reflexivity | exact Hv3 |].
+    set (r4 := eat_whitespace r3) in *. clearbody r4.
+    destruct (peek_cons r4 125 _ Hok4 Hv4) as (r5 & -> & Hv5 & Hc5 & Hok5).
+    cbn [is_b]. rewrite N.eqb_refl.
+    destruct (next_drop r5 125 _ Hok5 Hc5 Hv5) as (r6 & -> & ? & ? & _). cbn [snd]. eauto.
+  - (* non-empty object *)
+    rewrite render_obj in Hv1. cbn [app] in Hv1.
+    rewrite wf_obj in Hwf. destruct Hwf as (Hne & Hnd & Hwfm).
+    rewrite value_obj in Hval. destruct (vals_members ms) as [kvs|] eqn:Ekvs; [|discriminate].
+    cbn [option_map] in Hval. injection Hval as <-.
+    destruct (peek_cons r1 123 _ Hok1 Hv1) as (r2 & -> & Hv2 & Hc2 & Hok2).
+    ground_eqb. ground_dig. cbn [orb]. cbv iota.
+    destruct (next_drop r2 123 _ Hok2 Hc2 Hv2) as (r3 & -> & Hv3 & Hok3 & _). cbn [snd].
+    assert (L3 : S (length (view r3)) = length (view r1)) by (rewrite Hv1, Hv3; reflexivity).
+    destruct ms as [|[[[wk k] wc] [[wb t1] wa]] more]; [congruence|].
+    cbn [wf_members] in Hwfm. destruct Hwfm as (Hwk & Hk & Hwc & Hwb & Hwft1 & Hwa & Hmore).
+    rewrite render_members_cons in Hv3. rewrite <- !app_assoc in Hv3.
+    match type of Hv3 with _ = _ ++ _ ++ ?x => set (rst := x) in * end.
+    destruct (eat_whitespace_spec wk r3 (render_str k ++ rst) Hok3 Hwk) as (Hv4 & Hok4);
+      [reflexivity | exact Hv3 |].
+    set (r4 := eat_whitespace r3) in *.
+    assert (L4 : (length (view r4) <= length (view r3))%nat)  by (rewrite Hv4, Hv3; lens; lia).
+    clearbody r4.
+    assert (Hv4' : view r4 = 34 :: (flat_map render_char k ++ [34]) ++ rst) by (rewrite Hv4; reflexivity).
+    destruct (peek_cons r4 34 _ Hok4 Hv4') as (r5 & -> & Hv5 & Hc5 & Hok5).
+    cbn [is_b]. ground_eqb. cbv iota.
+    destruct (IHm (([], k, wc, (wb, t1, wa)) :: more) kvs [] r5 tl) as (r6 & -> & ? & ?);
+      try discriminate.
+    + cbn [wf_members]. splits; auto. constructor.
+    + exact Hnd.
+    + intros ? _ [].
+    + exact Ekvs.
+    + exact Hok5.
+    + rewrite render_members_cons, <- !app_assoc. rewrite Hv5. subst rst. reflexivity.
+    + assert (L5 : length (view r5) = length (view r4)) by (rewrite Hv5, Hv4'; reflexivity). lia.
+    + cbn [app]. eauto.
+Qed.
+
+Lemma items_step f : P_value f -> P_items f -> P_items (S f).
+Proof.
+  intros IHp IHi items vs acc r tl Hne Hwfi Hvals Hok Hv Hlen. rewrite parse_items_S.
+  destruct items as [|[[wb t1] wa] more]; [congruence|].
+  cbn [wf_items] in Hwfi. destruct Hwfi as (Hwb & Hwft1 & Hwa & Hmore).
+  cbn [vals_items] in Hvals.
+  destruct (value_of t1) as [v1|] eqn:Ev1; [|discriminate].
+  destruct (vals_items more) as [vs'|] eqn:Evs'; [|discriminate].
+  injection Hvals as <-.
+  rewrite render_items_cons in Hv. rewrite <- !app_assoc in Hv.
+  destruct (sep_items_follow more tl) as [Hsepnws Hsepfol].
+  destruct (IHp t1 v1 r wb (wa ++ sep_of more ++ render_items more ++ tl) Hwft1 Ev1 Hwb Hok Hv)
+    as (r1 & -> & Hv1 & Hok1).
+  { apply follow_after; assumption. }
+  { lia. }
+  cbv beta iota zeta.
+  destruct (eat_whitespace_spec wa r1 _ Hok1 Hwa Hsepnws Hv1) as (Hv2 & Hok2).
+  set (r2 := eat_whitespace r1) in *.
+  assert (Hl1 : (length (view r1) <= length (view r))%nat)  by (rewrite Hv, Hv1; lens; lia).
+  assert (Hl2 : (length (view r2) <= length (view r1))%nat)   by (rewrite Hv2, Hv1; lens; lia).
+  clearbody r2.
+  destruct more as [|i2 more].
+  - cbn [sep_of app render_items] in Hv2.
+    destruct (peek_cons r2 93 _ Hok2 Hv2) as (r3 & -> & Hv3 & Hc3 & Hok3). rewrite N.eqb_refl.
+    destruct (next_drop r3 93 _ Hok3 Hc3 Hv3) as (r4 & -> & ? & ? & _). cbn [snd].
+    cbn [vals_items] in Evs'. injection Evs' as <-. eauto.
+  - cbn [sep_of app] in Hv2.
+    destruct (peek_cons r2 44 _ Hok2 Hv2) as (r3 & -> & Hv3 & Hc3 & Hok3). ground_eqb. cbv iota.
+    destruct (next_drop r3 44 _ Hok3 Hc3 Hv3) as (r4 & -> & Hv4 & Hok4 & _). cbn [snd].
+    destruct (IHi (i2 :: more) vs' (acc ++ [v1]) r4 tl) as (r5 & -> & ? & ?); try discriminate; auto.
+    + rewrite Hv2 in Hl2. cbn [length] in Hl2. rewrite Hv4. lia.
+    + rewrite <- app_assoc. cbn [app]. eauto.
+Qed.
+
+Lemma members_step f : P_value f -> P_members f -> P_members (S f).
+Proof.
+  intros IHp IHm ms kvs acc r tl Hne Hwfm Hnd Hdisj Hvals Hok Hv Hlen. rewrite parse_members_S.
+  destruct ms as [|[[[wk k] wc] [[wb t1] wa]] more]; [congruence|].
+  cbn [wf_members] in Hwfm. destruct Hwfm as (Hwk & Hk & Hwc & Hwb & Hwft1 & Hwa & Hmore).
+  cbn [vals_members] in Hvals.
+  destruct (value_of t1) as [v1|] eqn:Ev1; [|discriminate].
+  destruct (vals_members more) as [kvs'|] eqn:Ekvs'; [|discriminate].
+  injection Hvals as <-.
+  cbn [map] in Hnd, Hdisj. unfold key_of at 1 in Hnd. unfold key_of at 1 in Hdisj.
+  cbn [fst snd] in Hnd, Hdisj.
+  inversion Hnd as [|? ? Hknew Hnd']; subst.
+  rewrite render_members_cons in Hv. rewrite <- !app_assoc in Hv.
+  destruct (sep_members_follow more tl) as [Hsepnws Hsepfol].
+  (* the member name *)
+  destruct (IHp (SStr k) (JStr (str_val k)) r wk
+              (wc ++ [58] ++ wb ++ render t1 ++ wa ++ sep_of more ++ render_members more ++ tl))
+    as (r1 & -> & Hv1 & Hok1); auto.
+  { exact I. }
+  { lia. }
+  cbv beta iota zeta.
+  assert (Hl1 : (length (view r1) <= length (view r))%nat) by (rewrite Hv, Hv1; lens; lia).
+  cbn [app] in Hv1.
+  destruct (eat_whitespace_spec wc r1 _ Hok1 Hwc (eq_refl : nws (58 :: _)) Hv1) as (Hv2 & Hok2).
+  set (r2 := eat_whitespace r1) in *.
+  assert (Hl2 : (length (view r2) <= length (view r1))%nat) by (rewrite Hv2, Hv1; lens; lia).
+  clearbody r2.
+  destruct (peek_cons r2 58 _ Hok2 Hv2) as (r3 & -> & Hv3 & Hc3 & Hok3).
+  cbn [is_b]. rewrite N.eqb_refl. cbn [negb].
+  destruct (next_drop r3 58 _ Hok3 Hc3 Hv3) as (r4 & -> & Hv4 & Hok4 & _). cbn [snd].
+  assert (Hl4 : (length (view r4) < length (view r2))%nat) by (rewrite Hv2, Hv4; lens; lia).
+  (* the member value *)
+  destruct (IHp t1 v1 r4 wb (wa ++ sep_of more ++ render_members more ++ tl) Hwft1 Ev1 Hwb Hok4 Hv4)
+    as (r5 & -> & Hv5 & Hok5).
+  { apply follow_after; assumption. }
+  { lia. }
+  cbv beta iota zeta.
+  assert (Hl5 : (length (view r5) <= length (view r4))%nat) by (rewrite Hv4, Hv5; lens; lia).
+  destruct (eat_whitespace_spec wa r5 _ Hok5 Hwa Hsepnws Hv5) as (Hv6 & Hok6).
+  set (r6 := eat_whitespace r5) in *.
+  assert (Hl6 : (length (view r6) <= length (view r5))%nat) by (rewrite Hv6, Hv5; lens; lia).
+  clearbody r6.
+  rewrite (obj_insert_fresh (str_val k) v1 acc) by (apply Hdisj; left; reflexivity).
+  destruct more as [|m2 more].
+  - cbn [sep_of app render_members] in Hv6.
+    destruct (peek_cons r6 125 _ Hok6 Hv6) as (r7 & -> & Hv7 & Hc7 & Hok7). rewrite N.eqb_refl.
+    destruct (next_drop r7 125 _ Hok7 Hc7 Hv7) as (r8 & -> & ? & ? & _). cbn [snd].
+    cbn [vals_members] in Ekvs'. injection Ekvs' as <-. eauto.
+  - cbn [sep_of app] in Hv6.
+    destruct (peek_cons r6 44 _ Hok6 Hv6) as (r7 & -> & Hv7 & Hc7 & Hok7). ground_eqb. cbv iota.
+    destruct (next_drop r7 44 _ Hok7 Hc7 Hv7) as (r8 & -> & Hv8 & Hok8 & _). cbn [snd].
+    destruct (IHm (m2 :: more) kvs' (acc ++ [(str_val k, v1)]) r8 tl) as (r9 & -> & ? & ?);
+      try discriminate; auto.
+    + intros k' Hin. rewrite map_app, in_app_iff. cbn [map fst In].
+      intros [H|[H|[]]].
+      * apply (Hdisj k'); [right; exact Hin|exact H].
+      * subst k'. apply Hknew. exact Hin.
+    + rewrite Hv6 in Hl6. cbn [length] in Hl6. rewrite Hv8. lia.
+    + rewrite <- app_assoc. cbn [app]. eauto.
+Qed.
+
+Lemma parse_ok : forall fuel, P_value fuel /\ P_items fuel /\ P_members fuel.
+Proof.
+  induction fuel as [|f (IHp & IHi & IHm)].
+  - repeat split; intro; intros; lia.
+  - split; [|split].
+    + apply value_step; assumption.
+    + apply items_step; assumption.
+    + apply members_step; assumption.
+Qed.
+
+(* the key intermediate theorem: a rendered value followed by an arbitrary continuation *)
+Theorem parse_value_render : forall fuel t v (w tl : list byte) r,
+  wf t -> value_of t = Some v -> ws_ok w -> follow t tl -> rd_ok r ->
+  view r = w ++ render t ++ tl -> (2 * length (view r) < fuel)%nat ->
+  exists r', parse_value fuel r = (POk v, r') /\ view r' = tl /\ rd_ok r'.
+Proof.
+  intros fuel t v w tl r Hwf Hval Hw Hfol Hok Hv Hlen.
+  exact (proj1 (parse_ok fuel) t v r w tl Hwf Hval Hw Hok Hv Hfol Hlen).
+Qed.
+
+(* ================= streams ================= *)
+Lemma parse_value_eof fuel r (w : list byte) : (0 < fuel)%nat -> ws_ok w -> rd_ok r -> view r = w ->
+  exists r', parse_value fuel r = (PEof, r').
+Proof.
+  intros Hf Hw Hok Hv. destruct fuel as [|f]; [lia|]. rewrite parse_value_S. cbv zeta.
+  destruct (eat_whitespace_spec w r [] Hok Hw I) as (Hv1 & Hok1); [rewrite app_nil_r; exact Hv|].
+  destruct (peek_nil _ Hok1 Hv1) as (r2 & -> & _). eauto.
+Qed.
+
+Lemma parse_fuel_enough r : rd_ok r -> (2 * length (view r) < parse_fuel r)%nat.
+Proof. intros Hok. pose proof (view_len r Hok). unfold parse_fuel. lia. Qed.
+
+Lemma stream_follow t (w : ws) (more : list (sjson * ws)) :
+  ws_ok w -> (bare t = true -> more <> [] -> w <> []) -> follow t (w ++ render_stream more).
+Proof.
+  intros Hw Hsep. destruct t; cbn [follow]; auto. cbn [bare] in Hsep.
+  destruct w as [|a w].
+  - destruct more as [|m more]; [exact I|]. exfalso. apply Hsep; [reflexivity|discriminate|reflexivity].
+  - inversion Hw; subst. cbn [app]. apply num_follow_ws. assumption.
+Qed.
+
+Lemma read_all_stream : forall (l : list (sjson * ws)) (vs : list json) r (lead : ws) fuel,
+  ws_ok lead -> Forall (fun tw => wf (fst tw)) l -> seps_ok l ->
+  Forall2 (fun tw v => value_of (fst tw) = Some v) l vs ->
+  rd_ok r -> view r = lead ++ render_stream l -> (length l < fuel)%nat ->
+  read_all fuel r = (vs, 0).
+Proof.
+  induction l as [|[t w] more IH]; intros vs r lead fuel Hlead Hwf Hseps Hvals Hok Hv Hf;
+    (destruct fuel as [|f]; [cbn in Hf; lia|]); cbn [read_all]; unfold next_json_value.
+  - inversion Hvals; subst. cbn [render_stream] in Hv. rewrite app_nil_r in Hv.
+    destruct (parse_value_eof (parse_fuel r) r lead) as (r' & ->); auto.
+    unfold parse_fuel; lia.
+  - inversion Hvals as [|? v ? vs' Hv1 Hvs']; subst. cbn [fst] in Hv1.
+    inversion Hwf as [|? ? Hwft Hwf']; subst. cbn [fst] in Hwft.
+    cbn [seps_ok] in Hseps. destruct Hseps as (Hw & Hsep & Hseps').
+    cbn [render_stream] in Hv.
+    destruct (parse_value_render (parse_fuel r) t v lead (w ++ render_stream more) r)
+      as (r' & -> & Hv' & Hok'); auto.
+    + apply stream_follow; assumption.
+    + apply parse_fuel_enough; assumption.
+    + rewrite (IH vs' r' w f); auto. cbn in Hf; lia.
+Qed.
+
+Lemma stream_length (l : list (sjson * ws)) : Forall (fun tw => wf (fst tw)) l ->
+  (length l <= length (render_stream l))%nat.
+Proof.
+  induction l as [|[t w] more IH]; intros H; [cbn; lia|].
+  inversion H as [|? ? Hwft Hwf']; subst. cbn [fst] in Hwft.
+  cbn [render_stream]. pose proof (render_nonempty t Hwft). specialize (IH Hwf').
+  lens. unfold ws, byte in *. lia.
+Qed.
+
+Theorem values_of_stream : forall (lead : ws) (l : list (sjson * ws)) (vs : list json),
+  stream_wf lead l ->
+  Forall2 (fun tw v => value_of (fst tw) = Some v) l vs ->
+  values_of_bytes (lead ++ render_stream l) = (vs, 0%N).
+Proof.
+  intros lead l vs (Hlead & Hwf & Hseps) Hvals. unfold values_of_bytes.
+  apply (read_all_stream l vs _ lead); auto.
+  - apply rd_ok_of_bytes.
+  - apply view_of_bytes.
+  - pose proof (stream_length l Hwf). rewrite app_length. lia.
+Qed.
+
+Print Assumptions parse_value_render.
+Print Assumptions values_of_stream.
